@@ -46,6 +46,8 @@ package static
 //@ ensures [cfg] forall c string, k int :: c in p.permissions && 0 <= k && k < len(p.permissions[c]) ==> p.permissions[c][k] != nil
 
 //@ func parseAndCheckParameters
+// (the guard in the loop tests the slice, not the option: a nil option would panic; every caller passes non-nil options)
+//@ requires [options] forall i int :: 0 <= i && i < len(params) ==> params[i] != nil
 //@ ensures [err] result1 != nil ==> result0 == nil
 //@ ensures [ok] result1 == nil ==> result0 != nil && fresh(result0) && result0.monitor != nil && tableOf(result0.access, result0.permissions)
 //@ ensures [clients] result1 == nil ==> (forall c string :: c in result0.permissions ==> c != "" && len(result0.permissions[c]) > 0)
@@ -64,6 +66,7 @@ package static
 //@ invariant [built] forall k int :: 0 <= k && k < _n ==> entryOf(paths[k], permissions[k])
 
 //@ func New
+//@ requires [options] forall i int :: 0 <= i && i < len(params) ==> params[i] != nil
 //@ modifies log
 //@ ensures [err] result1 != nil ==> result0 == nil
 //@ ensures [ok] result1 == nil ==> result0 != nil && (exists perms map[string][]*checker.Permissions :: tableOf(result0.access, perms))
